@@ -42,24 +42,59 @@ def _nontrivial(p, X):
     return bool(far or close)
 
 
+def build(case):
+    """The machine is reached through the public setters in a generated order; variances handed to the
+    setter may lie below the floors (the machine clamps them): the reference uses the VISIBLE variances."""
+    from bob.learn.em import GMMMachine
+
+    p = case["p"]
+    raw = np.array(case.get("raw_variances", p["variances"]), dtype=float)
+    fl = np.array(p["floors"], dtype=float) if np.ndim(p["floors"]) else float(p["floors"])
+    g = GMMMachine(int(p["C"]))
+    order = case.get("order", "floors_first")
+    if order == "floors_first":
+        g.variance_thresholds = fl
+        g.means = np.array(p["means"], dtype=float)
+        g.variances = raw
+    else:
+        g.means = np.array(p["means"], dtype=float)
+        g.variances = raw
+        if order == "floors_after_a_likelihood":
+            g.log_likelihood(np.array(p["means"][:1], dtype=float))
+        g.variance_thresholds = fl
+    g.weights = np.array(p["weights"], dtype=float)
+    return g
+
+
 def g_formula(draw):
     C, F = gen.dims(draw)
     p = gen.gmm_params(draw, C, F, allow_zero_floor=True, kmax=gen.choice(draw, [30.0, 1e3, 1e6]))
     n = gen.integer(draw, 1, 30 if gen.big() else 12)
     X, kind = gen.data_from(draw, p, n)
-    return {"p": p, "X": X, "kind": kind}
+    c = {"p": p, "X": X, "kind": kind, "order": gen.choice(draw, ["floors_first", "floors_last", "floors_after_a_likelihood"])}
+    if gen.choice(draw, [False, True]) and p["floor_kind"] not in ("default", "zero"):
+        # some variances are handed over BELOW their floor: the machine must clamp them (and normalise accordingly)
+        r = gen.rng(draw)
+        raw = p["variances"].copy()
+        fl = np.broadcast_to(np.asarray(p["floors"], float), raw.shape)
+        m = r.random(raw.shape) < 0.4
+        raw[m] = fl[m] * 10.0 ** r.uniform(-3, -0.1, int(m.sum()))
+        c["raw_variances"] = raw
+        p["variances"] = np.maximum(raw, fl)
+    return c
 
 
 @REG.obligation("ll_formula", g_formula, quick=1200, thorough=40000)
 def c_formula(ctx, case):
     """log_likelihood / log_weighted_likelihood / acc_stats().log_likelihood == SciPy reference."""
     p, X = case["p"], case["X"]
-    g = sut.make_gmm(p)
+    g = build(case)
     w, mu, var = sut.params_of(g)
-    # the machine must hold exactly what it was given (variances >= floors by construction)
-    ctx.close(var, p["variances"], "variances kept", rtol=0, atol=0)
+    # the machine must show max(given variances, floors)
+    ctx.close(var, p["variances"], "visible variances == max(given, floors)", rtol=0, atol=0)
     ctx.note(_nontrivial(p, X), "kind:" + case["kind"], "floor:" + p["floor_kind"],
-             "C>=2" if p["C"] >= 2 else "C=1")
+             "C>=2" if p["C"] >= 2 else "C=1", "order:" + case.get("order", "floors_first"),
+             "clamped-by-floor" if "raw_variances" in case else None)
     want_lw = ref.gmm_log_weighted(X, p["weights"], p["means"], p["variances"])
     want = logsumexp(want_lw, axis=0)
     got = g.log_likelihood(X)
